@@ -31,7 +31,7 @@ RULE = ("fault injection by real process kill: the component under test (server,
 ASSUMPTIONS = ["power-loss reordering below the file system (no fsync modelling) and disk-full are out of reach",
                "client and server use separate scratch HOME directories; each CLI command is a fresh Service loaded from disk",
                "the server's 1 s cleanup pause is a zero-delay shim in the child processes",
-               "the children's TMPDIR is on another file system than their HOME when the machine has one (here /dev/shm), every child has its own hash seed, a sample of the scenarios also runs with -O"]
+               "the children's TMPDIR is on another file system than their HOME when the machine has one (here /dev/shm), every child has its own hash seed, a sample of the scenarios also runs with -O, children started by root give up CAP_DAC_OVERRIDE so that file permission bits are enforced for them as for ordinary users"]
 
 PY = sys.executable
 CHILD = os.path.join(VERIF_DIR, "vlib", "c13_child.py")
